@@ -471,6 +471,12 @@ func lifecycleCuts(t *testing.T, h *H) {
 				})
 				c.Connect()
 				time.Sleep(20 * time.Second)
+				alive := c.Connected()
+				if !alive {
+					// the cut can fall on the client's pong of this very instant (pings at 2, 4, .. 20 s): "afterwards" starts once the
+					// server has had its heartbeat's worth of time to notice; the client does not reconnect, so nothing more is cut
+					time.Sleep(10 * time.Second)
+				}
 				cutTime = r.net.firstCut()
 				listedAfter = len(r.server.Sockets())
 				for _, id := range ids {
@@ -478,7 +484,6 @@ func lifecycleCuts(t *testing.T, h *H) {
 						roomsAfter++
 					}
 				}
-				alive := c.Connected()
 				r.shutdown(m)
 				mu.Lock()
 				if alive { // the cut never happened (k beyond the session's traffic): tear-down disconnects do not count
